@@ -1392,6 +1392,27 @@ func emC19(sc emScript) *emFail {
 					i, st.K, st.M, p1, o1.PC, o1.Flags, o1.Labels, emTotal(sz), p2, o2.PC, o2.Flags, o2.Labels))
 		}
 	}
+	// (2b) the dry-run emitter measures through Clone + Append as well: a nil-target emitter whose tail went through
+	// Clone(nil) and Append reports the same PC, flags and labels as the emitter with a real buffer that got every call
+	obig := emObserve(big)
+	for _, k := range []int{0, len(sc.Steps) / 2, len(sc.Steps) - 1} {
+		if k < 0 || k > len(sc.Steps) {
+			continue
+		}
+		d2 := asm.NewEmitter(nil, sc.Gen)
+		emRunFlat(d2, sc.Steps[:k])
+		c2 := d2.Clone(nil)
+		emRunFlat(c2, sc.Steps[k:])
+		if emProtect(func() { d2.Append(c2) }) {
+			return fail("C19.dry_run", "dry-run-append-refused", fmt.Sprintf("split %d: Append of a nil-target clone into a nil-target emitter panicked", k))
+		}
+		o := emObserve(d2)
+		if o.PC != obig.PC || o.Flags != obig.Flags || !reflect.DeepEqual(o.Labels, obig.Labels) {
+			return fail("C19.dry_run", "dry-run-clone-differs",
+				fmt.Sprintf("split %d: nil target with the tail through Clone(nil)+Append: pc=%#x flags=%02x labels=%v; real target with every call: pc=%#x flags=%02x labels=%v",
+					k, o.PC, o.Flags, o.Labels, obig.PC, obig.Flags, obig.Labels))
+		}
+	}
 	// (3) the block of a Clone is a block too: an Append that does not fit the remaining capacity is refused as a
 	// whole and leaves bytes, Len, PC and every label of the receiving emitter as they were
 	total := emTotal(sz)
@@ -1466,6 +1487,43 @@ func emC16(sc emScript, k int) *emFail {
 		if o := emObserve(orig); !emObsEq(o, snap) || emRawListing(orig, false) != snapText {
 			return fail("C16.frame_clone", "clone-op-changes-original",
 				fmt.Sprintf("split %d: step %d on the clone (%s %s) changed the original: %+v -> %+v", k, k+i, st.K, st.M, snap, o))
+		}
+	}
+	// "until Append is called the original is unaffected by ANYTHING done to the clone": also in what only Finalize
+	// shows (pending references).  A second original with a clone that receives the tail and is then abandoned must
+	// finalize exactly like a twin that never had a clone.
+	{
+		twin := asm.NewEmitter(emWindow(false, capa, sc.Fill), sc.Gen)
+		emRunFlat(twin, ops[:k])
+		orig2 := asm.NewEmitter(emWindow(false, capa, sc.Fill), sc.Gen)
+		emRunFlat(orig2, ops[:k])
+		cl2 := orig2.Clone(emWindow(false, total+4, sc.Fill+1))
+		emRunFlat(cl2, ops[k:])
+		headDet := true // Finalize visits Go maps in random order: compare only when its outcome cannot depend on it
+		emitted := false
+		for _, st := range ops[:k] {
+			switch st.K {
+			case "call", "bytes":
+				emitted = true
+			case "setbase":
+				if emitted {
+					headDet = false
+				}
+			}
+		}
+		if headDet {
+			ft, fo := emFull(twin), emFull(orig2)
+			// which failing reference a failing Finalize names depends on Go's map iteration order: compare ok / error / panic only
+			same := (ft.Fin.Cls == "ok") == (fo.Fin.Cls == "ok") && (ft.Fin.Cls == "panic") == (fo.Fin.Cls == "panic") &&
+				emObsEq(ft.Obs, fo.Obs) && ft.Text == fo.Text && ft.Hex == fo.Hex
+			if same && ft.Fin.Cls == "ok" && !reflect.DeepEqual(ft.Post, fo.Post) {
+				same = false
+			}
+			if !same {
+				return fail("C16.frame_clone", "abandoned-clone-changes-original",
+					fmt.Sprintf("split %d: an original whose clone received the tail and was never appended finalizes %s %s (bytes %v); a twin without a clone finalizes %s %s (bytes %v)",
+						k, fo.Fin.Cls, fo.Fin.Msg, fo.Post, ft.Fin.Cls, ft.Fin.Msg, ft.Post))
+			}
 		}
 	}
 	// refused Append: an original with room for the head only
